@@ -96,7 +96,11 @@ def gen_plan(run_seed, tier, index):
             break
     return {'check': ID, 'model_seed': mseed, 'nns': nns,
             'hist_seed': r.getrandbits(30), 'batch_seed': r.getrandbits(30),
-            'interop': r.random() < 0.25}
+            'interop': r.random() < 0.25,
+            # statistics switched on for the connection under test (they must
+            # not turn an accepted call into a failing one, and a call that
+            # fails only because of them still must not change anything)
+            'stats': r.random() < 0.3}
 
 
 def simple_value(r, t, is_array=False):
@@ -445,6 +449,8 @@ def execute(plan):
         """Run one enumerated case on a restored state."""
         nonlocal ncases, nraised
         conn = st.restore()
+        if plan.get('stats'):
+            conn.statistics.enable()
         before = mg.dump_repo(conn)
         ncases += 1
         try:
@@ -479,6 +485,14 @@ def execute(plan):
 
     # ---- batch APIs: every position x every reason
     n = len(els)
+    # (the unspoilt batch itself: must be accepted; judged like any other
+    # case if it raises)
+    case('add_cimobjects', 'valid_batch', 'all',
+         lambda c: c.add_cimobjects([copy.deepcopy(e['obj']) for e in els],
+                                    namespace=ns), 'valid batch of %d' % n)
+    case('compile_mof_string', 'valid_batch', 'all',
+         lambda c: c.compile_mof_string(batch_mof(els, None, None),
+                                        namespace=ns), 'valid batch of %d' % n)
     for k in range(n):
         kclass = 'first' if k == 0 else ('last' if k == n - 1 else 'middle')
         for reason in REASONS[els[k]['kind']]:
